@@ -35,3 +35,63 @@ void harness_parse_container(void) {
     POST(with_target || g_store_calls == 0, "C15 syntax-only mode stores nothing");
     if (d0 > 0) REACH("entered-skipping"); if (d0 == 0 && s->skip_depth == 1) REACH("sibling-handoff"); if (g_store_calls) REACH("stored");
 }
+
+/* ---- parse_item ------------------------------------------------------------------------------------------------------------- */
+static int h_item(UChar *name, cif_value_tp *value, void *d) {
+    SILENT("item");
+    __CPROVER_assert(name != NULL && value != NULL, "C15 item callback gets the data name and the parsed value");
+    g_item_cb_calls += 1; g_item_cb_answer = nondet_int();
+    return g_item_cb_answer;
+}
+void harness_parse_item(void) {
+    struct scanner_s *s = malloc(sizeof *s); __CPROVER_assume(s != NULL);
+    cif_handler_tp h; unsigned mask = (unsigned)nondet_int();
+    memset(&h, 0, sizeof h);
+    h.handle_item = (mask & 1) ? h_item : NULL;
+    s->handler = &h; s->error_callback = e_callback; s->whitespace_callback = (mask & 64) ? s_whitespace : NULL;
+    s->keyword_callback = NULL; s->dataname_callback = NULL;
+    s->user_data = NULL; s->line = 1; s->column = 0;
+    s->skip_depth = nondet_int(); __CPROVER_assume(s->skip_depth >= 0 && s->skip_depth < 999999);
+    s->tvalue_start = g_tokbuf; s->text_start = g_tokbuf; s->next_char = g_tokbuf; s->tvalue_length = 0; s->ttype = END;
+    g_scanner = s; g_store_calls = 0; g_item_cb_calls = 0; g_item_cb_answer = CIF_TRAVERSE_CONTINUE; g_value_frees = 0;
+    int cobj; UChar nm[2] = { '_', 0 };
+    int with_target = nondet_int(), with_name = nondet_int();
+    __CPROVER_assume(!with_name || s->skip_depth == 0);
+    int d0 = s->skip_depth;
+    int r = parse_item(s, with_target ? (cif_container_tp *)&cobj : NULL, with_name ? nm : NULL);
+    POST(d0 <= 0 || (s->skip_depth == d0 && g_item_cb_calls == 0 && g_store_calls == 0), "C15 an item inside a skip is neither reported nor stored, skip depth restored");
+    POST(g_item_cb_calls <= 1 && g_store_calls <= g_item_cb_calls + (h.handle_item == NULL ? 1u : 0u), "C15 at most one item callback, at most one store");
+    POST(g_store_calls == 0 || (with_target && with_name && (h.handle_item == NULL || g_item_cb_answer == CIF_TRAVERSE_CONTINUE)), "C15 a value is stored only for a named item whose handler answered CONTINUE");
+    POST(d0 > 0 || s->skip_depth == 0 || (s->skip_depth == 1 && g_item_cb_calls == 1 && g_item_cb_answer == CIF_TRAVERSE_SKIP_SIBLINGS), "C15 SKIP_SIBLINGS from an item is handed to the caller as skip depth 1");
+    if (g_store_calls) REACH("item-stored"); if (d0 > 0) REACH("item-skipped"); if (d0 == 0 && s->skip_depth == 1) REACH("item-skip-siblings");
+}
+
+/* ---- parse_loop_packets ---------------------------------------------------------------------------------------------------- */
+static int h_packet_start(cif_packet_tp *p, void *d) { SILENT("packet_start"); return nondet_int(); }
+static int h_packet_end(cif_packet_tp *p, void *d)   { SILENT("packet_end"); return nondet_int(); }
+void harness_parse_loop_packets(void) {
+    struct scanner_s *s = malloc(sizeof *s); __CPROVER_assume(s != NULL);
+    cif_handler_tp h; unsigned mask = (unsigned)nondet_int();
+    memset(&h, 0, sizeof h);
+    h.handle_item = (mask & 1) ? h_item : NULL; h.handle_packet_start = (mask & 2) ? h_packet_start : NULL; h.handle_packet_end = (mask & 4) ? h_packet_end : NULL;
+    s->handler = &h; s->error_callback = e_callback; s->whitespace_callback = (mask & 64) ? s_whitespace : NULL;
+    s->keyword_callback = NULL; s->dataname_callback = NULL; s->user_data = NULL; s->line = 1; s->column = 0;
+    s->skip_depth = nondet_int(); __CPROVER_assume(s->skip_depth >= 0 && s->skip_depth < 999990);
+    s->tvalue_start = g_tokbuf; s->text_start = g_tokbuf; s->next_char = g_tokbuf; s->tvalue_length = 0; s->ttype = END;
+    g_scanner = s; g_packet_adds = 0; g_item_cb_calls = 0; g_item_cb_answer = 0; g_value_frees = 0;
+    int ncol = nondet_int(); __CPROVER_assume(ncol >= 1 && ncol <= MAXCOL);
+    static UChar n0[2] = { '_', 0 }, n1[2] = { '_', 0 };
+    string_element_tp *nodes = malloc(MAXCOL * sizeof(string_element_tp)); __CPROVER_assume(nodes != NULL);
+    nodes[0].string = nondet_int() ? n0 : NULL; nodes[0].next = ncol > 1 ? &nodes[1] : NULL;
+    nodes[1].string = nondet_int() ? n1 : NULL; nodes[1].next = NULL;
+    g_names = nodes;
+    UChar **names = malloc((MAXCOL + 1) * sizeof(UChar *)); __CPROVER_assume(names != NULL);
+    names[0] = nodes[0].string ? nodes[0].string : (ncol > 1 ? nodes[1].string : NULL); names[1] = (nodes[0].string && ncol > 1) ? nodes[1].string : NULL; names[2] = NULL;
+    int lobj; int with_loop = nondet_int();
+    int d0 = s->skip_depth;
+    int r = parse_loop_packets(s, with_loop ? (cif_loop_tp *)&lobj : NULL, nodes, names, ncol);
+    POST(r != CIF_OK || d0 <= 0 || (s->skip_depth == d0 && g_packet_adds == 0), "C15 a loop body inside a skip stores no packet and restores the skip depth");
+    POST(r != CIF_OK || d0 > 0 || s->skip_depth == 0 || s->skip_depth == 1, "C15 skip depth 0 or the hand-off 1 after a loop body entered at depth 0");
+    POST(with_loop || g_packet_adds == 0, "C15 syntax-only mode stores no packet");
+    if (g_packet_adds) REACH("packet-stored"); if (d0 > 0 && r == CIF_OK) REACH("body-skipped"); if (g_item_cb_calls) REACH("item-reported");
+}
